@@ -263,7 +263,7 @@ def gen_case(rng, big=False):
 
 def shape_case(rng, kind):
     """parts of the families the shape theorems speak about"""
-    nm = rng.randint(3, 9)
+    nm = rng.randint(3, 9) if kind != "nestvolta" else rng.randint(6, 10)
     d = G.random_part_desc(rng, n_measures=nm, voices=1, staves=1, p_tie=0.2)
     bars = _bars_of(d)
     d["measures"] = [list(b) for b in bars]
@@ -287,6 +287,26 @@ def shape_case(rng, kind):
                 ex.append(["Ending", times[s], times[e], {"number": nums[b]}])
                 if b < k - 1 or k == 1:
                     ex.append(["Repeat", times[i], times[e], {}])
+    elif kind == "nestvolta" and nm >= 5:
+        # a volta group inside an outer repeat:  ... |: pre |: body [n.. ending :| [n.. ending | post :| ...
+        k = rng.randint(2, 3)
+        nums = _volta_numbers(rng, k)
+        # bars: o .. i-1 pre, i .. j-2 body, j-1 .. j+k-2 endings, j+k-1 .. eo-1 post
+        i = rng.randint(0, nm - k - 2)
+        j = rng.randint(i + 2, nm - k + 1) if i + 2 <= nm - k + 1 else None
+        if j is not None and j - 1 + k <= nm:
+            # the outer repeat starts strictly before the inner one (a sign that shares its start with the volta
+            # group is read as part of that group) and ends strictly after the last bracket
+            o = rng.randint(0, i - 1) if i >= 1 else None
+            eo = rng.randint(j + k, nm) if j + k <= nm else None
+            if o is not None and eo is not None:
+                ex.append(["Repeat", times[o], times[eo], {}])
+                for b in range(k):
+                    s_, e_ = j - 1 + b, j + b
+                    ex.append(["Ending", times[s_], times[e_], {"number": nums[b]}])
+                    if b < k - 1:
+                        ex.append(["Repeat", times[i], times[e_], {}])
+                d["nest"] = {"o": o, "eo": eo, "i": i, "j": j, "k": k, "nums": nums}
     elif kind == "nav" and nm >= 4:
         # the standard navigation forms, nothing else in the part
         form = rng.choice(["dc", "dcfine", "ds", "dsfine", "dccoda", "dscoda", "dscoda", "dcmid", "dsmid"])
@@ -345,6 +365,8 @@ def cases(rng, tier):
             yield shape_case(rng, "none")
         elif r < 0.36:
             yield shape_case(rng, "nav")
+        elif r < 0.46:
+            yield shape_case(rng, "nestvolta")
         else:
             yield gen_case(rng, big=(tier != "quick" and rng.random() < 0.2))
 
@@ -887,10 +909,48 @@ def family_of(L):
 # ------------------------------------------------------------------------------ evaluation
 def evaluate(desc):
     try:
-        return _evaluate(desc)
+        ev = _evaluate(desc)
     except _Timeout:
         # an enumeration / unfolding that does not finish in the time box: outside the compared domain
         return Eval()
+    nest = desc.get("part", {}).get("nest") if desc.get("k") == "gen" else None
+    if nest:
+        try:
+            nest_oracle(desc, nest, ev)
+        except _Timeout:
+            pass
+    return ev
+
+
+def nest_oracle(desc, nest, ev):
+    """independent expectation for a volta group nested in an outer repeat: the maximal unfolding plays the outer
+    section twice, and inside it the inner section once per ending number with the bracket carrying that number"""
+    import partitura.score as S
+
+    part = build(desc)
+    bars = sorted((m.start.t, m.end.t, m.number) for m in part.iter_all(S.Measure))
+    o, eo, i, j, k, nums = nest["o"], nest["eo"], nest["i"], nest["j"], nest["k"], nest["nums"]
+    bracket_of = {}
+    for b, txt in enumerate(nums):
+        for n in txt.split(","):
+            bracket_of[int(n)] = b
+    inner = []
+    for n in range(1, max(bracket_of) + 1):
+        inner += list(range(i, j - 1)) + [j - 1 + bracket_of[n]]
+    outer = list(range(o, i)) + inner + list(range(j - 1 + k, eo))
+    expected = list(range(0, o)) + outer + outer + list(range(eo, len(bars)))
+    exp_nums = [bars[x][2] for x in expected]
+    try:
+        um, e = guarded(lambda: S.unfold_part_maximal(part, update_ids=False))
+    except _Timeout:
+        return
+    if e is not None:
+        ev.oracle.append("nested-volta: unfold_part_maximal raised %s on a volta group inside an outer repeat" % type(e).__name__)
+        return
+    got = [m.number for m in sorted(um.iter_all(S.Measure), key=lambda m: m.start.t)]
+    if got != exp_nums:
+        ev.oracle.append("nested-volta: maximal unfolding plays measures %s, the notation (outer repeat twice, inner section once per "
+                         "ending number %s with its bracket) says %s" % (got, nums, exp_nums))
 
 
 def _evaluate(desc):
